@@ -167,6 +167,34 @@ def arm_env(ctx, fn, arm, ctxname, outer_env=None, variant=None):
                 and env[init_p["name"]][0] == "child" and "OptimizedExpr" in st["pat"].get("ty", ""):
             continue
         # `let mut tail = vec![];`
+        if "Vec<proc_macro2::TokenStream>" in st["pat"].get("ty", "") and kind(init_p) == "MethodCall" and init_p["m"] == "collect":
+            # `let tail: Vec<_> = flatten(*rhs, split_seq).map(generate_expr).collect();` - the operands of the
+            # right-nested chain, produced by a helper of the generator that is handed a splitter for the same variant
+            maps, cur = [], init_p["recv"]
+            while kind(peel(cur)) == "MethodCall":
+                cur = peel(cur)
+                if cur["m"] == "map" and cur["args"]:
+                    a = peel(cur["args"][0])
+                    if kind(a) == "Path" and a.get("res") == "def" and a.get("path") in genfns:
+                        maps.append(genfns[a["path"]])
+                cur = cur["recv"]
+            root = peel(cur)
+            src = None
+            same_variant = False
+            if kind(root) == "Call" and isinstance(callee(root), str) and callee(root).startswith(GEN + "::") and root["args"]:
+                a0 = peel(root["args"][0])
+                if kind(a0) == "Path" and a0.get("res") == "local" and isinstance(env.get(a0["name"]), tuple) and env[a0["name"]][0] == "child":
+                    src = env[a0["name"]][1]
+                for a in root["args"][1:]:
+                    a = peel(a)
+                    h = ctx.gen.fn(a["path"]) if kind(a) == "Path" and a.get("res") == "def" else None
+                    if h is not None and any(x.get("k") == "PTupleStruct" and x.get("path") == (variant or "") for x in walk(h["body"])):
+                        same_variant = True
+            if len(maps) == 1 and src is not None and same_variant:
+                env[nm] = ("spine", src, maps[0])
+            else:
+                env[nm] = ("unknown", "vec %s not understood" % nm)
+            continue
         if "Vec<proc_macro2::TokenStream>" in st["pat"].get("ty", ""):
             pushes = [x for x in walk(body) if kind(x) == "MethodCall" and x["m"] == "push" and hirq.local_id(x["recv"]) == st["pat"]["id"]]
             ok = bool(pushes)
